@@ -55,6 +55,8 @@ ReturnEv ==
     /\ Ev.e = "ret" /\ pend[Ev.p] # Idle
     /\ \/ /\ pend[Ev.p].lin /\ pend[Ev.p].out.v = Ev.v
           /\ (Ev.v \in {"Accept", "Read"} => pend[Ev.p].out.val = Ev.val)
+          \* a stale old size is answered with the witness' size (409 text/x.tlog.size): the size it held at the linearization point
+          /\ (Ev.v = "Stale" /\ "told" \in DOMAIN Ev => pend[Ev.p].out.val # None /\ pend[Ev.p].out.val.n = Ev.told)
        \/ Ev.v = "Internal" /\ ~pend[Ev.p].lin /\ pend[Ev.p].conflict /\ pend[Ev.p].op.kind = "update"
     /\ pend' = [pend EXCEPT ![Ev.p] = Idle]
     /\ st' = st /\ i' = i + 1
